@@ -1,6 +1,7 @@
 import GitBugModel.Model.GitTree
 import GitBugModel.Model.Refs
 import GitBugModel.Gen.Frame
+import GitBugModel.Model.Ident
 import Std.Data.String.ToInt
 /-!
 # C15 — git-bug never disturbs the host repository and writes only valid git data
@@ -326,5 +327,91 @@ example : (sortTree [{ name := "a0", isTree := false }, { name := "a", isTree :=
     = ["a.b", "a", "a0"] := by decide
 example : fsckTreeOk [{ name := "a", isTree := true }, { name := "a.b", isTree := false }] = false ∧
     fsckTreeOk [{ name := "a", isTree := false }, { name := "a", isTree := true }] = false := by decide
+
+
+/-! ## the author and committer lines of the commits -/
+section IdentLines
+open GitBugModel.Ident
+
+/-- whatever the configuration holds, a cleaned name or email has no '<', '>' or newline -/
+theorem cleanIdent_no_special (s : List Char) : ∀ c ∈ cleanIdent s, isSpecial c = false := by
+  intro c hc
+  unfold cleanIdent at hc
+  have := (List.mem_filter.mp hc).2
+  simpa using this
+
+theorem takeWhile_plain (a b : List Char) (h : ∀ c ∈ a, isSpecial c = false) :
+    (a ++ b).takeWhile (fun c => !isSpecial c) = a ++ b.takeWhile (fun c => !isSpecial c) := by
+  induction a with
+  | nil => rfl
+  | cons x xs ih =>
+    have hx : isSpecial x = false := h x List.mem_cons_self
+    simp only [List.cons_append, List.takeWhile_cons, hx, Bool.not_false, if_true]
+    rw [ih (fun c hc => h c (List.mem_cons_of_mem _ hc))]
+
+theorem dropWhile_plain (a b : List Char) (h : ∀ c ∈ a, isSpecial c = false) :
+    (a ++ b).dropWhile (fun c => !isSpecial c) = b.dropWhile (fun c => !isSpecial c) := by
+  induction a with
+  | nil => rfl
+  | cons x xs ih =>
+    have hx : isSpecial x = false := h x List.mem_cons_self
+    simp only [List.cons_append, List.dropWhile_cons, hx, Bool.not_false, if_true]
+    exact ih (fun c hc => h c (List.mem_cons_of_mem _ hc))
+
+/-- a line made of a name and an email without '<', '>' or newline, and a well-formed date, is
+accepted by `git fsck` — in particular with an empty name or an empty email (what an unset
+`author.name` gives) -/
+theorem plain_ident_fsck_ok (name email date : List Char)
+    (hn : ∀ c ∈ name, isSpecial c = false) (he : ∀ c ∈ email, isSpecial c = false) (hd : dateOk date = true) :
+    fsckIdent (identLine name email date) = none := by
+  have hline : identLine name email date = name ++ (' ' :: '<' :: (email ++ ('>' :: ' ' :: date))) := by
+    simp [identLine]
+  have hhead : (identLine name email date).head? ≠ some '<' := by
+    rw [hline]
+    cases name with
+    | nil => simp
+    | cons x xs =>
+      simp only [List.cons_append, List.head?_cons, ne_eq, Option.some.injEq]
+      intro hx
+      have := hn x List.mem_cons_self
+      rw [hx] at this
+      revert this; decide
+  have htake : (identLine name email date).takeWhile (fun c => !isSpecial c) = name ++ [' '] := by
+    rw [hline, takeWhile_plain _ _ hn]
+    have h1 : isSpecial ' ' = false := by decide
+    have h2 : isSpecial '<' = true := by decide
+    simp [List.takeWhile_cons, h1, h2]
+  have hdrop : (identLine name email date).dropWhile (fun c => !isSpecial c) = '<' :: (email ++ ('>' :: ' ' :: date)) := by
+    rw [hline, dropWhile_plain _ _ hn]
+    have h1 : isSpecial ' ' = false := by decide
+    have h2 : isSpecial '<' = true := by decide
+    simp [List.dropWhile_cons, h1, h2]
+  have hdrop2 : (email ++ ('>' :: ' ' :: date)).dropWhile (fun c => !isSpecial c) = '>' :: ' ' :: date := by
+    rw [dropWhile_plain _ _ he]
+    have h2 : isSpecial '>' = true := by decide
+    simp [List.dropWhile_cons, h2]
+  unfold fsckIdent
+  rw [if_neg (by simpa using hhead)]
+  simp only [htake, hdrop, hdrop2, List.getLast?_append, List.getLast?_singleton, Option.or_some]
+  simp [hd]
+
+/-- **every commit git-bug writes has author and committer lines `git fsck` accepts**, whatever
+`author.*` and `committer.*` hold in the host's configuration (since the repair: they are cleaned
+as git cleans them) -/
+theorem cleaned_ident_fsck_ok (cfgName cfgEmail date : List Char) (hd : dateOk date = true) :
+    fsckIdent (identLine (cleanIdent cfgName) (cleanIdent cfgEmail) date) = none :=
+  plain_ident_fsck_ok _ _ _ (cleanIdent_no_special cfgName) (cleanIdent_no_special cfgEmail) hd
+
+/-- the pinned tree wrote the configured strings as they are: a bracket or a newline in them gives
+a line `git fsck` refuses (kernel-checked witnesses; found through seed C15-6, repaired in /repo) -/
+theorem raw_ident_fsck_fails :
+    fsckIdent (identLine "Au <thor>".toList "<au@example.com>".toList "1790748343 +0000".toList) ≠ none ∧
+    fsckIdent (identLine "Com\nmit".toList "".toList "1790748343 +0000".toList) ≠ none := by
+  decide
+
+example : cleanIdent "  \"Au <thor>.\" ".toList = "Au thor".toList ∧ cleanIdent "<au@example.com>".toList = "au@example.com".toList := by decide
+example : dateOk "1790748343 +0000".toList = true := by decide
+
+end IdentLines
 
 end GitBugModel.Props.C15
